@@ -572,13 +572,16 @@ impl FunctionClauseError {
         }
         let map = term.as_map()?;
 
+        // an absent module / function is written as nil
         let module = map
             .get(&OwnedTerm::Atom(Atom::new("module")))
+            .filter(|m| !m.is_nil_atom())
             .and_then(|m| m.atom_name())
             .map(|s| s.strip_prefix("Elixir.").unwrap_or(s).to_string());
 
         let function = map
             .get(&OwnedTerm::Atom(Atom::new("function")))
+            .filter(|f| !f.is_nil_atom())
             .and_then(|f| f.atom_name())
             .map(|s| s.to_string());
 
